@@ -3,8 +3,14 @@ use crate::engine::PropertyDef;
 pub mod c01;
 pub mod c02;
 pub mod c03;
+pub mod c04;
+pub mod c05;
+pub mod c06;
+pub mod c07;
 pub mod c08;
 pub mod c09;
+pub mod c10;
+pub mod c11;
 pub mod c15;
 
 pub fn property(id: &str) -> Option<PropertyDef> {
@@ -12,8 +18,14 @@ pub fn property(id: &str) -> Option<PropertyDef> {
         "C01" => Some(c01::def()),
         "C02" => Some(c02::def()),
         "C03" => Some(c03::def()),
+        "C04" => Some(c04::def()),
+        "C05" => Some(c05::def()),
+        "C06" => Some(c06::def()),
+        "C07" => Some(c07::def()),
         "C08" => Some(c08::def()),
         "C09" => Some(c09::def()),
+        "C10" => Some(c10::def()),
+        "C11" => Some(c11::def()),
         "C15" => Some(c15::def()),
         _ => None,
     }
